@@ -273,3 +273,16 @@ func ReflectClose(ch reflect.Value) {
 	t.chanOp(OpChanClose, ch, true)
 	ch.Close()
 }
+
+// IsClosed reports the model's view of whether ch has been closed (oracle helper; always false
+// in the race tier, where only the detector's verdict matters).
+//
+//go:norace
+func IsClosed[T any](ch <-chan T) bool {
+	x := curX
+	if x == nil || raceBuild || ch == nil {
+		return false
+	}
+	_, ok := x.closed[reflect.ValueOf(ch).UnsafePointer()]
+	return ok
+}
